@@ -12,7 +12,7 @@ ASSUME = [
 KEYS = {"bytes-wrong", "bytes-missing", "eof-early", "eof-missing", "read-blocked", "accept-blocked", "call-blocked",
         "session-died", "session-not-closed", "conn-not-closed", "count-mismatch", "open-on-closed", "accept-on-closed",
         "open-refused", "accept-failed", "write-refused", "write-after-close", "close-blocked:accept-backlog-full",
-        "panic", "open-stream-on-closed-session"}
+        "panic", "open-stream-on-closed-session", "teardown-stuck:stalled-consumer"}
 RULE = ("behaviours of MuxGen with connection resets, active session closes by either side, the inactivity timer of one endpoint, "
         "parked Read/Accept calls, and (feature gates) goroutines parked at the labelled schedule points of OpenStream, of new-stream "
         "reception, of the timer and of AddConnection while other steps run; exhaustive BFS for small constants, TLC -simulate beyond; "
@@ -66,6 +66,9 @@ def backlog(ctx):
                       tag="mc_recvcheck_neg", expect_violation=True)
     if neg.ok:
         raise lib.Inconclusive("Mux: RecvCheckThenAct no longer yields a counter-example (vacuity)")
+    stalled = lib.run_go(ctx, "multiplex", "TestVerifC12StalledConsumer", timeout=600)
+    lib.collect_go(ctx, stalled)
+    ctx.log("stalled consumer: %d scenarios, %d violations" % (stalled["evaluations"], len(stalled.get("violations", []))))
     race = lib.run_go(ctx, "multiplex", "TestVerifMuxRecvCloseRace", timeout=900)
     lib.collect_go(ctx, race, died_key="panic")
     ctx.log("recv-vs-close race: %d rounds, %d violations" % (race["stats"].get("rounds", 0), len(race.get("violations", []))))
